@@ -26,7 +26,8 @@ def dispatch_events(arg):
     w = None
     try:
         w = W.World(runs.bdir(), seed=seed, tag="dd%d" % seed)
-        w.spawn("S", "S", ["-f", "-4", "-P", "pw", "-b", "5353", "10.0.0.1/24", dom])
+        # (every other server runs with debug output on: the debug code sits in front of the dispatch decision)
+        w.spawn("S", "S", ["-f", "-4", "-P", "pw", "-b", "5353"] + (["-D", "-D"] if seed % 2 else []) + ["10.0.0.1/24", dom])
         w.run_until(t=w.now + 1000)
         got = []
         w.endpoints[("127.0.0.1", 5353)] = lambda wd, serial, src, dst, data: got.append(data)
@@ -58,12 +59,20 @@ def dispatch_events(arg):
                 name = pre + [l.upper() if rng.random() < 0.3 else l for l in labs] + \
                     ([labs[0] + "xy"] + labs[1:] if rng.random() < 0.3 else []) + labs
             name = [n for n in name if n] or ["a"]
+            bname = [n.encode("latin-1") for n in name]
+            if i % 11 == 10 and len(labs) >= 2:
+                # a byte that is not a dot exactly where a dot would make the name end with the domain: control
+                # characters, bytes >= 0x80, a space (one label: <data><byte><first domain label>)
+                sepb = bytes([rng.choice([0x01, 0x1f, 0x7f, 0x80, 0xe9, 0xff, 0x20, 0x2d])])
+                bname = [b"vaaaaaaa" + sepb + labs[0].encode()] + [l.encode() for l in labs[1:]]
+                if rng.random() < 0.5:
+                    bname = [b"vaaaaaaa"] + [labs[0].encode() + sepb + labs[1].encode()] + [l.encode() for l in labs[2:]]
             del got[:]
-            q = D.build_query(1000 + i, [n.encode() for n in name], rng.choice([D.T_NULL, D.T_TXT, D.T_A, D.T_NS, D.T_MX]),
+            q = D.build_query(1000 + i, bname, rng.choice([D.T_NULL, D.T_TXT, D.T_A, D.T_NS, D.T_MX]),
                               edns=False)
             w.send(("10.9.2.1", 5301), (W.SERVER_IP, 53), q, "req")
             w.run_until(t=w.now + 3000)
-            evs.append({"e": "Dispatch", "name": [ord(c) for c in ".".join(name)], "dom": [ord(c) for c in dom],
+            evs.append({"e": "Dispatch", "name": list(b".".join(bname)), "dom": [ord(c) for c in dom],
                         "forwarded": len(got) > 0})
     except (W.KernelDied, W.KernelHang) as ex:
         evs.append({"e": "Abort", "what": str(ex)[:200]})
